@@ -74,6 +74,13 @@ def build(tier, rnd):
         cases[-1]['server_opts'] = {'debug_kinds': {'kexreply': k}}
         add(['ssh-rsa-cert-v01@openssh.com', 'ssh-rsa'], {'ssh-rsa-cert-v01@openssh.com': (3072, 'ssh-ed25519', 256), 'ssh-rsa': (1024, '', 0)}, 'debug-before-reply')
         cases[-1]['server_opts'] = {'debug_kinds': {'kexreply': k}}
+    # SSH_MSG_IGNORE in front of the reply: the probes do not expect it and give the type up - each on its own connection, so nothing
+    # is measured for any type and, above all, no reply left over from one probe is taken for the next type's key
+    add(['rsa-sha2-512', 'ssh-ed25519'], {}, 'ignore-before-reply')
+    cases[-1]['server_opts'] = {'ignore_kinds': {'kexreply': 1}}
+    add(['ssh-rsa', 'ssh-rsa-cert-v01@openssh.com', 'ssh-ed25519'], {}, 'ignore-before-reply')
+    cases[-1]['server_opts'] = {'ignore_kinds': {'kexreply': 1}}
+    cases[-1]['raw_hostkeys'] = {'ssh-rsa-cert-v01@openssh.com': rating.hostkey_blob('ssh-rsa-cert-v01@openssh.com', (1024, 'ssh-rsa', 4096))}
     # advertised but never presented: the server closes the probe connection instead of sending the key.  Nothing was measured
     # for that type, so nothing may be reported for it (no size, no CA, no fingerprint); the other types are unaffected.
     for key, hk, held in ((['rsa-sha2-512', 'rsa-sha2-256', 'ssh-ed25519'], {}, RSA_FAM),
@@ -90,6 +97,8 @@ def build(tier, rnd):
 def fp_expected(c, cfg):
     """{type: (sha256, md5)} of the presented blobs: one 'ssh-rsa' for the family, none for certificates."""
     out = {}
+    if (c.get('server_opts') or {}).get('ignore_kinds'):
+        return out          # no probe of this server can succeed: no key is ever read, so none may be fingerprinted
     for t, blob in cfg['hostkeys'].items():
         if '-cert-' in t or t not in [rating.shown(x) for x in c['key']]:
             continue
